@@ -292,8 +292,8 @@ Proof.
 Qed.
 
 (* all four committed repairs in place; the Event-Timestamp requirement on (= repaired) or off (= head) *)
-Definition flt (ts dd : bool) : flags :=
-  {| f_reply := true; f_coaauth := true; f_dmwin := true; f_white := true; f_tsreq := ts; f_dedup := dd |}.
+Definition flt (ts dd tt : bool) : flags :=
+  {| f_reply := true; f_coaauth := true; f_dmwin := true; f_white := true; f_tsreq := ts; f_dedup := dd; f_ttl := tt |}.
 
 Lemma window_ok_req_spec (w now : Z) (attrs : list attr) :
   window_ok_req w now attrs = true <->
@@ -309,13 +309,14 @@ Section Q.
 Variable md5raw : bytes -> bytes.
 Variable tsr : bool.
 Variable ddp : bool.
+Variable ttp : bool.
 
 Lemma nak_effect fl cl secret raw p code cause st : effect (nak md5raw fl cl secret raw p code cause st) = None.
 Proof. reflexivity. Qed.
 
 Lemma handle_coa_effect cfg now bus cl secret raw p e :
-  effect (handle_coa md5raw (flt tsr ddp) cfg now bus cl secret raw p) = Some e ->
-  window_check (flt tsr ddp) (window cfg) now (p_attrs p) = true /\
+  effect (handle_coa md5raw (flt tsr ddp ttp) cfg now bus cl secret raw p) = Some e ->
+  window_check (flt tsr ddp ttp) (window cfg) now (p_attrs p) = true /\
   exists t delta, e = EvMutation t delta /\ resolve_target (p_attrs p) = Some t /\
     nasid_ok (nasid cfg) (p_attrs p) = true /\ has_service_type (p_attrs p) 8 = false /\
     delta = strip_non_mutable (extract_attributes (maps cfg) (p_attrs p)) /\ delta <> [] /\
@@ -323,7 +324,7 @@ Lemma handle_coa_effect cfg now bus cl secret raw p e :
 Proof.
   unfold handle_coa.
   destruct (has_service_type (p_attrs p) 8) eqn:Hs; [rewrite nak_effect; discriminate|].
-  destruct (window_check (flt tsr ddp) (window cfg) now (p_attrs p)) eqn:Hw; simpl negb; cbv iota; [|discriminate].
+  destruct (window_check (flt tsr ddp ttp) (window cfg) now (p_attrs p)) eqn:Hw; simpl negb; cbv iota; [|discriminate].
   destruct (resolve_target (p_attrs p)) as [t|] eqn:Ht; [|rewrite nak_effect; discriminate].
   destruct (nasid_ok (nasid cfg) (p_attrs p)) eqn:Hn; simpl negb; cbv iota; [|rewrite nak_effect; discriminate].
   destruct (strip_non_mutable (extract_attributes (maps cfg) (p_attrs p))) as [|kv delta] eqn:Hd;
@@ -337,26 +338,26 @@ Proof.
 Qed.
 
 Lemma handle_dm_effect cfg now cl secret raw p e :
-  effect (handle_dm md5raw (flt tsr ddp) cfg now cl secret raw p) = Some e ->
-  window_check (flt tsr ddp) (window cfg) now (p_attrs p) = true /\
+  effect (handle_dm md5raw (flt tsr ddp ttp) cfg now cl secret raw p) = Some e ->
+  window_check (flt tsr ddp ttp) (window cfg) now (p_attrs p) = true /\
   exists t, e = EvTerminate t /\ resolve_target (p_attrs p) = Some t /\
     nasid_ok (nasid cfg) (p_attrs p) = true /\ has_non_ident (p_attrs p) = false.
 Proof.
   unfold handle_dm.
   destruct (has_non_ident (p_attrs p)) eqn:Hs; [rewrite nak_effect; discriminate|].
-  destruct (window_check (flt tsr ddp) (window cfg) now (p_attrs p)) eqn:Hw; simpl f_dmwin; simpl negb; simpl andb; cbv iota; [|discriminate].
+  destruct (window_check (flt tsr ddp ttp) (window cfg) now (p_attrs p)) eqn:Hw; simpl f_dmwin; simpl negb; simpl andb; cbv iota; [|discriminate].
   destruct (resolve_target (p_attrs p)) as [t|] eqn:Ht; [|rewrite nak_effect; discriminate].
   destruct (nasid_ok (nasid cfg) (p_attrs p)) eqn:Hn; simpl negb; cbv iota; [|rewrite nak_effect; discriminate].
   simpl. intros He; inversion He; subst. split; [reflexivity|]. exists t. auto.
 Qed.
 
 Lemma coa_admission cfg now src bus raw e :
-  effect (coa_step md5raw (flt tsr ddp) cfg now src bus raw) = Some e ->
+  effect (coa_step md5raw (flt tsr ddp ttp) cfg now src bus raw) = Some e ->
   exists cl c p,
     find_client 0 (clients cfg) src = Some (cl, c) /\ parse raw = Some p /\
     req_auth_ok md5raw (c_secret c) (truncate raw) = true /\
     ma_req_ok_rfc md5raw (c_secret c) (truncate raw) = true /\
-    window_check (flt tsr ddp) (window cfg) now (p_attrs p) = true /\
+    window_check (flt tsr ddp ttp) (window cfg) now (p_attrs p) = true /\
     match e with
     | EvMutation t delta =>
       p_code p = 43 /\ resolve_target (p_attrs p) = Some t /\ nasid_ok (nasid cfg) (p_attrs p) = true /\
@@ -632,12 +633,12 @@ Definition admitted_by (md5raw : bytes -> bytes) (cfg : coacfg) (src : N) (raw :
     match e with EvMutation _ _ => p_code p = 43 | EvTerminate _ => p_code p = 40 end.
 
 Lemma coa_admission_gen :
-  forall md5raw tsr ddp cfg now src bus raw e,
-    effect (coa_step md5raw (flt tsr ddp) cfg now src bus raw) = Some e ->
-    admitted_by md5raw cfg src raw e (fun p => window_check (flt tsr ddp) (window cfg) now (p_attrs p) = true).
+  forall md5raw tsr ddp ttp cfg now src bus raw e,
+    effect (coa_step md5raw (flt tsr ddp ttp) cfg now src bus raw) = Some e ->
+    admitted_by md5raw cfg src raw e (fun p => window_check (flt tsr ddp ttp) (window cfg) now (p_attrs p) = true).
 Proof.
-  intros md5raw tsr ddp cfg now src bus raw e He.
-  destruct (coa_admission md5raw tsr ddp cfg now src bus raw e He) as (cl & c & p & Hc & Hp & Hra & Hma & Hw & Hm).
+  intros md5raw tsr ddp ttp cfg now src bus raw e He.
+  destruct (coa_admission md5raw tsr ddp ttp cfg now src bus raw e He) as (cl & c & p & Hc & Hp & Hra & Hma & Hw & Hm).
   apply find_client_spec in Hc as (_ & Hn & Hcs & Hfirst). rewrite Nat.sub_0_r in *.
   exists cl, c, p. repeat split; auto.
   - destruct e; apply Hm.
@@ -654,7 +655,7 @@ Lemma coa_admission_thm :
                  (- window cfg <= now - Z.of_N (event_ts (p_attrs p)) <= window cfg)%Z)).
 Proof.
   intros md5raw cfg now src bus raw e He.
-  destruct (coa_admission_gen md5raw true true cfg now src bus raw e He) as (cl & c & p & H).
+  destruct (coa_admission_gen md5raw true true true cfg now src bus raw e He) as (cl & c & p & H).
   exists cl, c, p. intuition. apply window_ok_req_spec. assumption.
 Qed.
 
@@ -667,7 +668,7 @@ Lemma coa_admission_head_thm :
                 (- window cfg <= now - Z.of_N (event_ts (p_attrs p)) <= window cfg)%Z).
 Proof.
   intros md5raw cfg now src bus raw e He.
-  destruct (coa_admission_gen md5raw false true cfg now src bus raw e He) as (cl & c & p & H).
+  destruct (coa_admission_gen md5raw false true false cfg now src bus raw e He) as (cl & c & p & H).
   exists cl, c, p. intuition. apply window_ok_spec. assumption.
 Qed.
 
@@ -687,8 +688,8 @@ Proof.
 Qed.
 
 Lemma coa_mutable_only_thm :
-  forall md5raw tsr ddp cfg now src bus raw e,
-    effect (coa_step md5raw (flt tsr ddp) cfg now src bus raw) = Some e ->
+  forall md5raw tsr ddp ttp cfg now src bus raw e,
+    effect (coa_step md5raw (flt tsr ddp ttp) cfg now src bus raw) = Some e ->
     exists p, parse raw = Some p /\
       match e with
       | EvMutation t delta =>
@@ -698,8 +699,8 @@ Lemma coa_mutable_only_thm :
         resolve_target (p_attrs p) = Some t /\ has_non_ident (p_attrs p) = false
       end.
 Proof.
-  intros md5raw tsr ddp cfg now src bus raw e He.
-  destruct (coa_admission md5raw tsr ddp cfg now src bus raw e He) as (cl & c & p & _ & Hp & _ & _ & _ & Hm).
+  intros md5raw tsr ddp ttp cfg now src bus raw e He.
+  destruct (coa_admission md5raw tsr ddp ttp cfg now src bus raw e He) as (cl & c & p & _ & Hp & _ & _ & _ & Hm).
   exists p. split; [exact Hp|]. destruct e as [t delta|t].
   - destruct Hm as (_ & Ht & _ & _ & Hd & Hne & Ha). repeat split; auto.
     + eapply all_allowed_spec; eauto.
@@ -1177,3 +1178,87 @@ Proof.
 Qed.
 
 End Y.
+
+(* ------------------------------------------------------------------ the duplicate cache with lifetime and capacity *)
+Lemma window_check_in_range fl w now attrs :
+  window_check fl w now attrs = true -> (0 < w)%Z -> event_ts attrs <> 0 ->
+  (- w <= now - Z.of_N (event_ts attrs) <= w)%Z.
+Proof.
+  unfold window_check. intros H Hw Hts. destruct (f_tsreq fl).
+  - apply window_ok_req_spec in H. lia.
+  - apply window_ok_spec in H. lia.
+Qed.
+
+(* with the corrected lifetime an entry never expires while its request could still pass the window: a request
+   admitted at t0 (second now0) whose timestamp is still inside the window at T (second nowT) has T < t0 + ttl *)
+Lemma ttl_outlives_window fl w ts now0 t0 nowT T :
+  f_ttl fl = true -> (0 < w)%Z ->
+  (1000 * now0 <= t0)%Z -> (T < 1000 * (nowT + 1))%Z ->
+  (- w <= now0 - ts)%Z -> (nowT - ts <= w)%Z ->
+  (T < t0 + cache_ttl fl w)%Z.
+Proof.
+  intros Hf Hw H0 HT Ha Hb. unfold cache_ttl. rewrite Hf.
+  replace (0 <? w)%Z with true by lia. lia.
+Qed.
+
+Section Z1.
+Variable md5raw : bytes -> bytes.
+Variables tsr ttp : bool.
+Notation fl := (flt tsr true ttp).
+
+Lemma coa_step_g_window rej orep cfg now src bus raw e p :
+  effect (coa_step_g md5raw fl rej orep cfg now src bus raw) = Some e -> parse raw = Some p ->
+  window_check fl (window cfg) now (p_attrs p) = true.
+Proof.
+  intros He Hp. apply coa_step_g_effect_any in He.
+  destruct (coa_admission md5raw tsr true ttp cfg now src bus raw e He) as (cl & c & p' & _ & Hp' & _ & _ & Hw & _).
+  rewrite Hp in Hp'. inversion Hp'; subst. exact Hw.
+Qed.
+
+(* replay of an executed, timestamped request against the cache it left behind: with the corrected lifetime it never
+   takes effect again, at whatever later instant it arrives *)
+Lemma timed_replay_suppressed (max : nat) rej1 orep1 rej2 orep2 cfg now0 t0 nowT T src bus1 bus2 raw p o1 c1 e :
+  ttp = true -> (0 < max)%nat -> (0 < window cfg)%Z ->
+  parse raw = Some p -> event_ts (p_attrs p) <> 0 ->
+  (1000 * now0 <= t0)%Z -> (T < 1000 * (nowT + 1))%Z ->
+  coa_step_t md5raw max fl rej1 orep1 cfg now0 t0 src bus1 raw rcache0 = (o1, c1) ->
+  effect o1 = Some e ->
+  effect (fst (coa_step_t md5raw max fl rej2 orep2 cfg nowT T src bus2 raw c1)) = None.
+Proof.
+  intros Htt Hmax Hw Hp Hts H0 HT H1 He.
+  destruct max as [|max']; [lia|].
+  unfold coa_step_t in H1. simpl f_dedup in H1. cbv iota in H1.
+  destruct (reached_worker (coa_step_g md5raw fl rej1 orep1 cfg now0 src bus1 raw)) eqn:Hr1.
+  2:{ simpl in H1. inversion H1; subst. apply effect_reached in He. congruence. }
+  simpl andb in H1. cbv iota in H1.
+  destruct (dedup_key cfg src raw) as [k|] eqn:Hk.
+  2:{ inversion H1; subst o1. destruct (effect_has_key md5raw fl rej1 orep1 cfg now0 src bus1 raw e He) as [k Hk']. congruence. }
+  unfold cache_begin in H1. simpl in H1.
+  destruct (coa_step_g md5raw fl rej1 orep1 cfg now0 src bus1 raw) as [|cl st|cl|cl st r ev] eqn:Ho1;
+    try (inversion H1; subst; simpl in He; discriminate).
+  inversion H1; subst o1 c1. clear H1. simpl in He. subst ev.
+  assert (Hw1 : window_check fl (window cfg) now0 (p_attrs p) = true).
+  { apply (coa_step_g_window rej1 orep1 cfg now0 src bus1 raw e p); [rewrite Ho1; reflexivity|exact Hp]. }
+  (* second step *)
+  unfold coa_step_t. simpl f_dedup. cbv iota. rewrite Hk.
+  destruct (reached_worker (coa_step_g md5raw fl rej2 orep2 cfg nowT src bus2 raw)) eqn:Hr2.
+  2:{ simpl. destruct (effect (coa_step_g md5raw fl rej2 orep2 cfg nowT src bus2 raw)) eqn:He2; [|reflexivity].
+      apply effect_reached in He2. congruence. }
+  simpl andb. cbv iota.
+  unfold cache_begin, cache_finish. simpl.
+  assert (Hkk : ckey_eqb k k = true) by (unfold ckey_eqb; rewrite !beq_refl; reflexivity).
+  repeat (rewrite Hkk; simpl).
+  destruct (T <? t0 + cache_ttl fl (window cfg))%Z eqn:Hexp.
+  - unfold ent_set. cbn [rc_entries ent_find]. rewrite Hkk. destruct (coa_step_g md5raw fl rej2 orep2 cfg nowT src bus2 raw); reflexivity.
+  - (* the entry has expired: then the window no longer admits the request *)
+    simpl. destruct (effect (coa_step_g md5raw fl rej2 orep2 cfg nowT src bus2 raw)) as [e2|] eqn:He2.
+    + exfalso.
+      pose proof (coa_step_g_window rej2 orep2 cfg nowT src bus2 raw e2 p He2 Hp) as Hw2.
+      apply window_check_in_range in Hw1; auto. apply window_check_in_range in Hw2; auto.
+      assert (T < t0 + cache_ttl fl (window cfg))%Z.
+      { apply (ttl_outlives_window fl (window cfg) (Z.of_N (event_ts (p_attrs p))) now0 t0 nowT T); auto; try lia; simpl; exact Htt. }
+      lia.
+    + destruct (coa_step_g md5raw fl rej2 orep2 cfg nowT src bus2 raw) as [|cl2 st2|cl2|cl2 st2 r2 ev2]; simpl in *; auto.
+Qed.
+
+End Z1.
